@@ -1,11 +1,11 @@
-SPECIFICATION Spec
+SPECIFICATION SafetySpec
 CONSTANTS
   RetryOnAbort = FALSE
   Kinds = {"choice"}
   MaxChoices = 2
   NPool = 5
   MaxLines = 3
-  NAnswers = 13
+  NAnswers = 11
   Attempts = {0, 1, 2, 3}
   NDefaults = 1
   Inter = {TRUE}
@@ -22,4 +22,3 @@ INVARIANT P_eof
 INVARIANT P_confirm
 INVARIANT A_prompts
 INVARIANT Emit
-PROPERTY Termination
